@@ -270,3 +270,41 @@ def gen_dyn(tier, seed, reject=False):
         cases.append("DYN d%d %s %d %d %s %d %d %d %d %d | %s | %s" % (j, cfg["name"], cfg["kbits"], cfg["signed"], cfg["vkind"], base, bl, il,
                                                                    cfg["eps"], cfg["epsrec"], " ".join(bulk), " ".join(ops)))
     return cases, stats
+
+# ---------------------------------------------------------------- Bucketing / Elias-Fano variants
+def var_configs(kind):
+    out = []
+    for line in open(os.path.join(ROOT, "harness", "var_configs.inc")):
+        if kind == "BK":
+            m = re.match(r"BK\((\w+),\s*(\w+),\s*(\d+),\s*(\d+),\s*(\d+),\s*(\d+),\s*(\w+),\s*(\d)\)", line)
+            if m: out.append(dict(name=m.group(1), kbits=int(m.group(3)), signed=0, eps=int(m.group(4)), tls=int(m.group(5)), tlbs=int(m.group(6)), fdouble=int(m.group(8))))
+        else:
+            m = re.match(r"EF\((\w+),\s*(\w+),\s*(\d+),\s*(\d+),\s*(\w+),\s*(\d)\)", line)
+            if m: out.append(dict(name=m.group(1), kbits=int(m.group(3)), signed=0, eps=int(m.group(4)), fdouble=int(m.group(6))))
+    return out
+
+def gen_var(tier, seed, kind):
+    rng = random.Random(seed * 32452843 + (5 if kind == "BK" else 9))
+    cfgs = var_configs(kind)
+    cases, stats = [], {"styles": {}, "n": {}}
+    per_cfg = 10 if tier == "quick" else 120
+    cid = 0
+    for cfg in cfgs:
+        for j in range(per_cfg):
+            style = STYLES[(j + rng.randint(0, 7)) % len(STYLES)]
+            n = rng.choice([1, 2, 3, 5, 9, rng.randint(1, 64), rng.randint(20, 400), rng.randint(100, 1200 if tier == "quick" else 4000)])
+            if cfg["kbits"] == 8: n = min(n, rng.choice([3, 20, 100, 250]))
+            keys = gen_keys(rng, cfg["kbits"], 0, n, cfg["eps"], style)
+            if not keys: continue
+            qs = gen_queries(rng, cfg["kbits"], 0, keys, 40 if tier == "quick" else 120)
+            cid += 1
+            if kind == "BK":
+                cases.append("BKT k%d %s %d %d %d %d %d | %s | %s" % (cid, cfg["name"], cfg["kbits"], cfg["eps"], cfg["tls"], cfg["tlbs"], cfg["fdouble"],
+                                                                    " ".join(map(str, keys)), " ".join(map(str, qs))))
+            else:
+                cases.append("EFI f%d %s %d %d %d | %s | %s" % (cid, cfg["name"], cfg["kbits"], cfg["eps"], cfg["fdouble"],
+                                                              " ".join(map(str, keys)), " ".join(map(str, qs))))
+            stats["styles"][style] = stats["styles"].get(style, 0) + 1
+            b = "n<=4" if len(keys) <= 4 else "n<=64" if len(keys) <= 64 else "n<=1024" if len(keys) <= 1024 else "n>1024"
+            stats["n"][b] = stats["n"].get(b, 0) + 1
+    return cases, stats
